@@ -116,7 +116,7 @@ var floors = map[string][]string{
 	"C12": {"e2e:values-compared", "tz="},
 	"C14": {"e2e:values-compared"},
 	"C16": {"charset-pairs", "e2e:several-format-descriptions"},
-	"C20": {"e2e:streamed-transactions", "held:batches", "dotted-names"},
+	"C20": {"e2e:streamed-transactions", "held:batches", "dotted-names", "big-multibyte-values"},
 }
 
 type violation struct {
